@@ -11,7 +11,8 @@ Open Scope nat_scope.
 Lemma gen_cleanup_ok :
   cleanup_steps = [CPathRestore; CEndPatch "imp.load_source"; CEndPatch "importlib.util.spec_from_file_location";
                    CEndPatch "importlib.util.module_from_spec"; CMetaRemove false; CModules; CCaptureUndo]
-  /\ ctx_restored_in_finally = true /\ pep517_chdir_restored_in_finally = true.
+  /\ ctx_restored_in_finally = true /\ pep517_chdir_restored_in_finally = true
+  /\ extractor_state_fresh_per_analysis = true.
 Proof. repeat split. Qed.
 
 (* every begin_patch is ended by the finally block, every context patch by the context manager *)
@@ -36,13 +37,13 @@ Section SetupPy.
     g_cwd s = cwd /\ g_meta s = [hk] /\ g_patched s = PAT /\ g_capture s = true
     /\ Forall (fun e : string * nat => snd e = id) (g_modules s).
 
-  Lemma run_ops_inv ops : forall s seen s2 seen2 r,
-    Inv s -> run_ops ops s seen = (s2, seen2, r) -> Inv s2.
+  Lemma run_ops_inv files ops : forall s seen reads s2 seen2 reads2 r,
+    Inv s -> run_ops files ops s seen reads = (s2, seen2, reads2, r) -> Inv s2.
   Proof.
-    induction ops as [|op ops IH]; intros s seen s2 seen2 r HI Hr.
+    induction ops as [|op ops IH]; intros s seen reads s2 seen2 reads2 r HI Hr.
     - cbn in Hr. inversion Hr; subst. exact HI.
     - destruct HI as [A [B [C [D E]]]].
-      destruct op as [n | p | | p | p | d]; cbn [run_ops] in Hr.
+      destruct op as [n | p | | p | p | d | o nw | rp]; cbn [run_ops] in Hr.
       + destruct (lookup_mod n (g_modules s)) as [o|].
         * eapply IH; [| exact Hr]. repeat split; assumption.
         * rewrite B in Hr. unfold first_hook in Hr. cbn [find] in Hr.
@@ -56,6 +57,9 @@ Section SetupPy.
       + destruct (mem p (g_path s)); [|inversion Hr; subst; repeat split; assumption].
         eapply IH; [| exact Hr]. repeat split; assumption.
       + eapply IH; [| exact Hr]. repeat split; assumption.
+      + eapply IH; [| exact Hr]. repeat split; assumption.
+      + destruct (mem (via_renames (g_renames s) rp) files); [|inversion Hr; subst; repeat split; assumption].
+        eapply IH; [| exact Hr]. repeat split; assumption.
   Qed.
 End SetupPy.
 
@@ -64,30 +68,36 @@ End SetupPy.
    ends, whether its PEP 517 hook raises - one analysis gives the state back *)
 Theorem frame st p : quiescent st = true -> snd (analyse st p) = st.
 Proof.
-  destruct st as [cwd P meta mods pat cap]. unfold quiescent. cbn [g_meta g_modules g_patched].
+  destruct st as [cwd P meta mods pat cap ren]. unfold quiescent. cbn [g_meta g_modules g_patched].
   destruct meta; [|discriminate]. destruct mods; [|discriminate]. destruct pat; [|discriminate]. intros _.
-  unfold analyse. destruct (pj_kind p) as [|raises]; cbn [g_cwd g_path g_meta g_modules g_patched g_capture].
-  - destruct (run_ops (pj_ops p) _ []) as [[s2 seen] raised] eqn:R.
+  unfold analyse. destruct (pj_kind p) as [|raises]; cbn [g_cwd g_path g_meta g_modules g_patched g_capture g_renames].
+  - destruct (run_ops (pj_files p) (pj_ops p) _ [] []) as [[[s2 seen] reads] raised] eqn:R.
     assert (HI : Inv cwd (pj_setupdir p) (pj_id p) (pj_helpers p) (begin_patched ++ ctx_patched ++ [])%list s2).
-    { eapply (run_ops_inv cwd (pj_setupdir p) (pj_id p) (pj_helpers p) _ (pj_ops p)); [| exact R].
+    { eapply (run_ops_inv cwd (pj_setupdir p) (pj_id p) (pj_helpers p) _ (pj_files p) (pj_ops p)); [| exact R].
       repeat split; cbn; auto. }
     destruct HI as [A [B [C [D E]]]].
-    destruct s2 as [cwd2 path2 meta2 mods2 pat2 cap2]. cbn in A, B, C, D, E. subst cwd2 meta2 pat2 cap2.
+    destruct s2 as [cwd2 path2 meta2 mods2 pat2 cap2 ren2]. cbn in A, B, C, D, E. subst cwd2 meta2 pat2 cap2.
     unfold cleanup_steps.
-    cbn [run_cleanup cleanup_step g_cwd g_path g_meta g_modules g_patched g_capture remove_hook h_owner].
-    rewrite Nat.eqb_refl. cbn [snd g_cwd g_path g_meta g_modules g_patched g_capture].
+    cbn [run_cleanup cleanup_step g_cwd g_path g_meta g_modules g_patched g_capture g_renames remove_hook h_owner].
+    rewrite Nat.eqb_refl. cbn [snd g_cwd g_path g_meta g_modules g_patched g_capture g_renames].
     rewrite (filter_owner _ _ E).
-    change ctx_restored_in_finally with true. cbn [orb g_cwd g_path g_meta g_modules g_patched g_capture].
+    change ctx_restored_in_finally with true. change extractor_state_fresh_per_analysis with true.
+    cbn [orb g_cwd g_path g_meta g_modules g_patched g_capture g_renames].
     destruct cap; cbn [negb]; f_equal; vm_compute; reflexivity.
   - change pep517_chdir_restored_in_finally with true. reflexivity.
 Qed.
+
+(* the rename table an analysis STARTS with is empty, whatever was analysed (and renamed) before:
+   it is state of the extractor created for this analysis, not of the class *)
+Lemma rename_table_fresh st : start_renames st = [].
+Proof. unfold start_renames. change extractor_state_fresh_per_analysis with true. reflexivity. Qed.
 
 (* a project whose analysis fails - raising setup.py or raising PEP 517 hook - is reported as a metadata
    failure of that project, never as a foreign exception (finding C12-pep517-failure-escapes, fixed) *)
 Lemma failure_is_metadata_failure st p : o_escaped (fst (analyse st p)) = false.
 Proof.
   unfold analyse. destruct (pj_kind p) as [|raises].
-  - destruct (run_ops _ _ _) as [[s2 seen] raised]. destruct (run_cleanup _ _ _ _ _) as [s3 cr]. reflexivity.
+  - destruct (run_ops _ _ _ _ _) as [[[s2 seen] reads] raised]. destruct (run_cleanup _ _ _ _ _) as [s3 cr]. reflexivity.
   - cbn [fst o_escaped]. change pep517_failure_wrapped with true. now rewrite andb_false_r.
 Qed.
 
@@ -108,25 +118,32 @@ Proof.
 Qed.
 
 (* ------------------------------------------------------------------ examples *)
-Definition st0 : pstate := mkP "/work" ["/venv/lib/site-packages"] [] [] [] false.
+Definition st0 : pstate := mkP "/work" ["/venv/lib/site-packages"] [] [] [] false [].
 
 (* alpha: imports its helper, then pops the setup dir off sys.path itself (micropython-lib idiom) *)
 Definition alpha : project :=
-  mkProj 1 KSetupPy "alpha" "/work/alpha" "/alpha/" [("_about", "/alpha/")]
+  mkProj 1 KSetupPy "alpha" "/work/alpha" "/alpha/" [("_about", "/alpha/")] []
          [OpImport "_about"; OpPathPop0] EReturn.
 Definition beta : project :=
-  mkProj 2 KSetupPy "beta" "/work/beta" "/beta/" [("_about", "/beta/")] [OpImport "_about"] EReturn.
+  mkProj 2 KSetupPy "beta" "/work/beta" "/beta/" [("_about", "/beta/")] [] [OpImport "_about"] EReturn.
 Definition broken : project :=
-  mkProj 3 (KPep517 true) "broken" "/work/broken" "" [] [] EReturn.
+  mkProj 3 (KPep517 true) "broken" "/work/broken" "" [] [] [] EReturn.
 Definition raising : project :=
-  mkProj 4 KSetupPy "r" "/work/r" "/r/" [("_about", "/r/")] [OpImport "_about"; OpChdir "pkg"] ERaise.
+  mkProj 4 KSetupPy "r" "/work/r" "/r/" [("_about", "/r/")] [] [OpImport "_about"; OpChdir "pkg"] ERaise.
 (* a script that ADDS a sys.path entry, and a later project with the same fake root that relies on it *)
 Definition ins_a : project :=
-  mkProj 5 KSetupPy "a/i-1.0" "/work/a/i-1.0" "/i-1.0/" [("hh", "/i-1.0/src")]
+  mkProj 5 KSetupPy "a/i-1.0" "/work/a/i-1.0" "/i-1.0/" [("hh", "/i-1.0/src")] []
          [OpPathInsert "/i-1.0/src"; OpImport "hh"] EReturn.
 Definition ins_b : project :=
-  mkProj 6 KSetupPy "b/i-1.0" "/work/b/i-1.0" "/i-1.0/" [("hh", "/i-1.0/src")]
+  mkProj 6 KSetupPy "b/i-1.0" "/work/b/i-1.0" "/i-1.0/" [("hh", "/i-1.0/src")] []
          [OpImport "hh"] EReturn.
+(* a script that renames VERSION.in to VERSION and reads it; then a project that reads its own VERSION
+   while also shipping a VERSION.in template *)
+Definition ren_a : project :=
+  mkProj 7 KSetupPy "ra" "/work/ra" "/ra/" [] ["VERSION.in"]
+         [OpRename "VERSION.in" "VERSION"; OpRead "VERSION"] EReturn.
+Definition ren_b : project :=
+  mkProj 8 KSetupPy "rb" "/work/rb" "/rb/" [] ["VERSION"; "VERSION.in"] [OpRead "VERSION"] EReturn.
 
 Example frame_nontrivial :
   quiescent st0 = true
@@ -136,5 +153,8 @@ Example frame_nontrivial :
   (* the former leak (finding C12-syspath-insert-leak, fixed by 6eecba5): b fails alone AND after a *)
   /\ map o_failed (fst (run_seq st0 [ins_a; ins_b])) = [false; true]
   /\ o_failed (fst (analyse st0 ins_b)) = true
-  /\ snd (run_seq st0 [ins_a; ins_b]) = st0.
+  /\ snd (run_seq st0 [ins_a; ins_b]) = st0
+  (* renames: a reads what it renamed, b - analysed after a - still reads its OWN VERSION *)
+  /\ map o_reads (fst (run_seq st0 [ren_a; ren_b])) = [[("VERSION", "VERSION.in")]; [("VERSION", "VERSION")]]
+  /\ snd (run_seq st0 [ren_a; ren_b]) = st0.
 Proof. repeat split; vm_compute; reflexivity. Qed.
